@@ -24,11 +24,13 @@ struct Enc {
     v_lo: bool,
     hit_hi: bool,
     hit_lo: bool,
+    /// longest run of pending 0xFF bytes a carry has rippled through so far
+    max_carry_run: u64,
 }
 
 impl Enc {
     fn new(v_hi: bool, v_lo: bool) -> Self {
-        Enc { low: 0, range: 0xFFFF_FFFF, cache: 0, cachesz: 1, out: Vec::with_capacity(2048), v_hi, v_lo, hit_hi: false, hit_lo: false }
+        Enc { low: 0, range: 0xFFFF_FFFF, cache: 0, cachesz: 1, out: Vec::with_capacity(2048), v_hi, v_lo, hit_hi: false, hit_lo: false, max_carry_run: 0 }
     }
     #[inline]
     fn shift_low(&mut self) {
@@ -42,6 +44,9 @@ impl Enc {
         let above = if self.v_hi { self.low >= 0xFFFF_FFFF } else { self.low > 0xFFFF_FFFF };
         if below || above {
             let carry = (self.low >> 32) as u8;
+            if carry != 0 && self.cachesz - 1 > self.max_carry_run {
+                self.max_carry_run = self.cachesz - 1;
+            }
             let mut tmp = self.cache;
             loop {
                 self.out.push(tmp.wrapping_add(carry));
@@ -146,4 +151,114 @@ pub fn search(seconds: u64, threads: usize, len: usize, out_path: &str) {
     if !f.is_empty() {
         std::fs::write(out_path, serde_json::to_string_pretty(&json!({"note": "inputs that put the literal-only range encoder exactly on a boundary of write_low's flush test (found by lzverif carrysearch)", "inputs": *f})).unwrap()).unwrap();
     }
+}
+
+/// Steered search for inputs on which a CARRY ripples through a long run of pending 0xFF bytes in the range
+/// encoder (probability about 2^-8k for k pending bytes on arbitrary data).  Greedy with a 256-way lookahead
+/// per input byte: first grow the pending run (keep the top byte of `low` at 0xFF across shifts), then pick a
+/// byte that overflows `low`.  Kept inputs go to the same corpus as the boundary inputs.
+pub fn search_long_carry(targets: &[u64], out_path: &str) {
+    struct St {
+        e: Enc,
+        is_match: [u16; 4],
+        lit: Vec<u16>,
+        prev: u8,
+        i: usize,
+    }
+    impl St {
+        fn new() -> St {
+            St { e: Enc::new(false, false), is_match: [0x400; 4], lit: vec![0x400u16; 8 * 0x300], prev: 0, i: 0 }
+        }
+        fn push(&mut self, b: u8) {
+            let i = self.i;
+            self.e.bit(&mut self.is_match[i & 3], false);
+            let base = (self.prev as usize >> 5) * 0x300;
+            let mut m = 1usize;
+            for k in (0..8).rev() {
+                let bit = (b >> k) & 1 != 0;
+                self.e.bit(&mut self.lit[base + m], bit);
+                m = (m << 1) | bit as usize;
+            }
+            self.prev = b;
+            self.i += 1;
+        }
+        fn fork(&self) -> St {
+            St { e: self.e.clone(), is_match: self.is_match, lit: self.lit.clone(), prev: self.prev, i: self.i }
+        }
+    }
+    let mut found: Vec<serde_json::Value> = vec![];
+    if let Ok(t) = std::fs::read_to_string(out_path) {
+        if let Ok(j) = serde_json::from_str::<serde_json::Value>(&t) {
+            if let Some(a) = j["inputs"].as_array() {
+                found = a.clone();
+            }
+        }
+    }
+    let mut rng = StdRng::seed_from_u64(0xCA227);
+    for &target in targets {
+        let mut done = false;
+        for attempt in 0..20000 {
+            let mut st = St::new();
+            let mut input: Vec<u8> = vec![];
+            // random warm-up so that different attempts adapt the probabilities differently
+            for _ in 0..rng.gen_range(0..6) {
+                let b: u8 = rng.gen();
+                st.push(b);
+                input.push(b);
+            }
+            // The interval [low, low + range) must keep STRADDLING the carry boundary 2^32 of the low register: then
+            // every shifted-out byte is a pending 0xFF, and the final choice of the upper sub-interval carries
+            // through all of them.  (A run of 0xFF bytes that does not straddle - all-ones data - can never carry.)
+            while input.len() < 600 {
+                let pending = st.e.cachesz.saturating_sub(1);
+                let mut keep: Vec<u8> = vec![];
+                let mut carry: Vec<u8> = vec![];
+                for b in 0..=255u8 {
+                    let mut f = st.fork();
+                    let before = f.e.max_carry_run;
+                    f.push(b);
+                    if f.e.max_carry_run > before && f.e.max_carry_run >= target {
+                        carry.push(b);
+                    }
+                    if f.e.low < (1u64 << 32) && f.e.low + f.e.range as u64 > (1u64 << 32) && f.e.cachesz >= st.e.cachesz.min(2) {
+                        keep.push(b);
+                    }
+                }
+                if pending >= target && !carry.is_empty() {
+                    let b = carry[rng.gen_range(0..carry.len())];
+                    st.push(b);
+                    input.push(b);
+                    done = true;
+                    break;
+                }
+                let straddling = st.e.low < (1u64 << 32) && st.e.low + st.e.range as u64 > (1u64 << 32);
+                let b = if !keep.is_empty() {
+                    keep[rng.gen_range(0..keep.len())]
+                } else if straddling && pending > 0 {
+                    break; // lost it: restart
+                } else {
+                    // not straddling yet: skewed bytes adapt the is_match / literal probabilities
+                    if rng.gen_bool(0.5) { rng.gen() } else { [0x00u8, 0xFF, 0x7F, 0x80][rng.gen_range(0..4)] }
+                };
+                st.push(b);
+                input.push(b);
+            }
+            if done {
+                // a few more bytes so that the stream goes on after the carry
+                for _ in 0..8 {
+                    let b: u8 = rng.gen();
+                    st.push(b);
+                    input.push(b);
+                }
+                let run = st.e.max_carry_run;
+                eprintln!("[carrysearch] carry through {} pending bytes with a {}-byte input (attempt {})", run, input.len(), attempt);
+                found.push(json!({"boundary": format!("carry through {} pending 0xFF bytes", run), "input_hex": crate::report::hex(&input)}));
+                break;
+            }
+        }
+        if !done {
+            eprintln!("[carrysearch] no input found for a carry through {} pending bytes", target);
+        }
+    }
+    std::fs::write(out_path, serde_json::to_string_pretty(&json!({"note": "inputs that put the literal-only range encoder exactly on a boundary of write_low's flush test, or make a carry ripple through a long run of pending bytes (found by lzverif carrysearch)", "inputs": found})).unwrap()).unwrap();
 }
